@@ -1052,7 +1052,11 @@ _G = [
     {"key": ["n.x", "doc.d.y"], "default": None, "seq": "tuple"},
 ]
 _BIG = 2 ** 53
+_JNEG = [{"sp": {"a": -1, "b": 1}, "doc": {"a": -2.5}}, {"sp": {"a": 1, "b": 1}, "doc": {"a": 2.5}}, {"sp": {"a": "-1", "b": -0.5}, "doc": {"a": -2}}]
 CONSTRUCTED = [
+    # negative numbers in the token / string front ends
+    *[{"jobs": _JNEG, "filter": f, "rewrites": [[6, k]], "slices": [], "groupings": []}
+      for f in ({"a": -1}, {"doc.a": -2.5}, {"b": -0.5, "doc.a": -2}, {"a": -1, "b": 1}) for k in range(4)],
     {"jobs": _J, "filter": {"n": {"x": {"$lt": 2}}, "b": {"$in": [1, 2]}},
      "rewrites": [[1, 1], [3, 0], [2, 0], [5, 0]], "slices": [[1, None, None], [None, None, -1], [-3, 4, 2]], "groupings": _G[:4]},
     {"jobs": _J, "filter": {"$not": {"doc.d.y": "abc"}, "a": {"$gte": 1}},
